@@ -25,20 +25,29 @@ pub mod c01;
 pub mod c02;
 pub mod c03;
 pub mod c04;
+pub mod c05;
 pub mod c06;
 pub mod c07;
 pub mod c08;
 pub mod c09;
 pub mod c10;
+pub mod c11;
 pub mod c12;
 pub mod c12_data;
 pub mod c13;
 pub mod c14;
 pub mod c15;
 pub mod c16;
+pub mod c19;
+pub mod c20;
 pub mod fma_data;
 
 /// name -> native replay entry of every harness
+#[cfg(feature = "serde")]
+fn serde_table() -> &'static [(&'static str, fn())] { c20::sd::TABLE }
+#[cfg(not(feature = "serde"))]
+fn serde_table() -> &'static [(&'static str, fn())] { &[] }
+
 pub fn table() -> impl Iterator<Item = &'static (&'static str, fn())> {
-    c01::TABLE.iter().chain(c02::TABLE.iter()).chain(c03::TABLE.iter()).chain(c04::TABLE.iter()).chain(c04::agreement::TABLE.iter()).chain(c06::TABLE.iter()).chain(c07::TABLE.iter()).chain(c08::TABLE.iter()).chain(c09::TABLE.iter()).chain(c10::TABLE.iter()).chain(c12::TABLE.iter()).chain(c13::TABLE.iter()).chain(c13::solver::TABLE.iter()).chain(c14::TABLE.iter()).chain(c15::TABLE.iter()).chain(c15::solver::TABLE.iter()).chain(c16::TABLE.iter()).chain(c16::solver::TABLE.iter()).chain(c14::nopanic::TABLE.iter())
+    c01::TABLE.iter().chain(c02::TABLE.iter()).chain(c03::TABLE.iter()).chain(c04::TABLE.iter()).chain(c04::agreement::TABLE.iter()).chain(c05::TABLE.iter()).chain(c06::TABLE.iter()).chain(c07::TABLE.iter()).chain(c08::TABLE.iter()).chain(c09::TABLE.iter()).chain(c10::TABLE.iter()).chain(c11::TABLE.iter()).chain(c12::TABLE.iter()).chain(c19::TABLE.iter()).chain(c20::TABLE.iter()).chain(serde_table().iter()).chain(c13::TABLE.iter()).chain(c13::solver::TABLE.iter()).chain(c14::TABLE.iter()).chain(c15::TABLE.iter()).chain(c15::solver::TABLE.iter()).chain(c16::TABLE.iter()).chain(c16::solver::TABLE.iter()).chain(c14::nopanic::TABLE.iter())
 }
